@@ -44,6 +44,8 @@ def fmi (s : Stack) : List (Nat × Nat) := s.findMarks
 @[simp] theorem fmi_with_found_refreshLog (s : Stack) (x : TStore SvcKey) (y : List (Addr × SvcKey × Nat × Nat)) : fmi { s with found := x, refreshLog := y } = fmi s := rfl
 @[simp] theorem fmi_with_subLog (s : Stack) (x : List (Addr × Nat × List Eventgroup)) : fmi { s with subLog := x } = fmi s := rfl
 @[simp] theorem fmi_with_findLog (s : Stack) (x : List (Nat × Nat)) : fmi { s with findLog := x } = fmi s := rfl
+@[simp] theorem fmi_with_ansLog (s : Stack) (x : List (Nat × Addr × Nat × Nat)) : fmi { s with ansLog := x } = fmi s := rfl
+@[simp] theorem fmi_logAnswer (s : Stack) (i : Nat) (a : Addr) (d : Nat) : fmi (s.logAnswer i a d) = fmi s := rfl
 @[simp] theorem fmi_with_offLog (s : Stack) (x : List (Nat × OEv × Nat)) : fmi { s with offLog := x } = fmi s := rfl
 @[simp] theorem fmi_logOffer (s : Stack) (i : Nat) (e : OEv) : fmi (s.logOffer i e) = fmi s := rfl
 @[simp] theorem fmi_with_subDup (s : Stack) (x : Bool) : fmi { s with subDup := x } = fmi s := rfl
